@@ -33,6 +33,9 @@ def run(r):
     for cfg, inv, fid in (('H5Store_asis_d3.cfg', 'SliceAgree', 'D3'), ('H5Store_asis_d4.cfg', 'SliceAgree', 'D4')):
         w = r.model_check('H5StoreMC', cfg, expect_violation=inv)
         r.replay(full, [w.trace], 'H5Store', 'asis-witness-' + fid)
+    if thorough:
+        from checks import pipe
+        pipe.stage(r, 300)
     for op in ('Add', 'Close', 'Reopen'):
         if not r.actions_seen.get(op):
             raise tlc.TLCError('vacuity guard: op %s never replayed' % op)
